@@ -100,7 +100,7 @@ impl Check for VectorCheck {
         "C31"
     }
     fn budget(&self, tier: &str) -> usize {
-        if tier == "thorough" { 200_000 } else { 8_000 }
+        if tier == "thorough" { 600_000 } else { 8_000 }
     }
     fn gen_case(&self, seed: u64, _idx: usize, _tier: &str, avoid: &[String]) -> Case {
         let mut rng = Rng::new(seed, "workload");
